@@ -53,7 +53,9 @@ Proof. intros Hb. rewrite <- (app_nil_r body). eapply lexes_skip; [apply lex1_co
 
 (* ---- tokens that are taken whole when followed by suitable text ---- *)
 Definition good_follow (x : kl) (rest : text) : Prop :=
-  match fst x with KID => head_fails is_idc rest | KINT => stops_int rest = true | KFLOAT => fstop rest | _ => True end.
+  match fst x with KID => head_fails is_idc rest | KINT => stops_int rest = true | KFLOAT => fstop rest
+  | KPLAIN => head_fails is_plainc rest          (* a PLAIN_STRING runs on to the next delimiter: blanks included *)
+  | _ => True end.
 Definition delimited (x : kl) : Prop := forall rest, good_follow x rest -> lex1 (snd x ++ rest) = ([], LTok (fst x) (snd x) rest).
 Lemma delim_string s : delimited (KSTRING, quote s). Proof. intros rest _. apply lex1_takes_quoted. Qed.
 Lemma delim_int z : delimited (KINT, int_text z). Proof. intros rest H. apply lexer_takes_int. exact H. Qed.
@@ -78,14 +80,19 @@ Proof. intros H N. destruct H as [|c g Hc Hg|c g Hc Hg|body g Hb Hg]; [congruenc
   - exists c, g. auto.
   - exists c, g. auto.
   - exists 35, (body ++ 10 :: g). auto. Qed.
-Lemma good_follow_gap x g rest : isgap g -> g <> [] -> good_follow x (g ++ rest).
-Proof. intros H N. destruct (gap_head g H N) as (c & g' & -> & Hc). unfold good_follow. cbn [app].
+Lemma good_follow_gap x g rest : fst x <> KPLAIN -> isgap g -> g <> [] -> good_follow x (g ++ rest).
+Proof. intros NP H N. destruct (gap_head g H N) as (c & g' & -> & Hc). unfold good_follow. cbn [app].
   assert (A : is_idc c = false /\ is_digit c = false /\ (c =? 46) = false /\ fcont c = false).
   { destruct Hc as [Hc|[Hc|Hc]].
     - unfold is_ign in Hc. apply orb_true_iff in Hc as [Hc|Hc]; apply N.eqb_eq in Hc; subst; repeat split; reflexivity.
     - destruct (nl_cases c Hc) as [-> | ->]; repeat split; reflexivity.
     - subst. repeat split; reflexivity. }
-  destruct A as (A1 & A2 & A3 & A4). destruct (fst x); try exact I; cbn [head_fails stops_int fstop]; [exact A1 | exact A4 | rewrite A2, A3; reflexivity]. Qed.
+  destruct A as (A1 & A2 & A3 & A4). destruct (fst x) eqn:K; try exact I.
+  - cbn [head_fails]. exact A1.
+  - cbn [head_fails fstop]. exact A4.
+  - cbn [stops_int]. rewrite A2, A3. reflexivity.
+  - congruence.
+Qed.
 
 (* ---- every token of a well-formed serialised program is delimited ---- *)
 Ltac punct := cbn [In]; tauto.
@@ -147,12 +154,12 @@ Proof. intros Hp W Hlen Hg Hf Hok. apply parse_of_lexes; [exact Hp|].
 (* convenient sufficient condition: every gap but the first is non-empty *)
 Lemma good_follow_nil x : good_follow x [].
 Proof. unfold good_follow. destruct (fst x); exact I || reflexivity. Qed.
-Lemma lay_ok_gaps : forall l final, Forall (fun gx : text * kl => isgap (fst gx)) l -> isgap final ->
+Lemma lay_ok_gaps : forall l final, Forall (fun gx : text * kl => isgap (fst gx) /\ fst (snd gx) <> KPLAIN) l -> isgap final ->
   (forall gx, In gx (tl l) -> fst gx <> []) -> lay_ok l final.
-Proof. induction l as [|[g x] t IH]; intros final HF Hfin Hne; [exact I|]. inversion HF as [|? ? Hg HF']; subst. cbn [lay_ok snd tl] in *. split.
+Proof. induction l as [|[g x] t IH]; intros final HF Hfin Hne; [exact I|]. inversion HF as [|? ? [Hg Hx] HF']; subst. cbn [lay_ok snd tl fst] in *. split.
   - destruct t as [|[g' x'] t'].
-    + cbn [lay]. destruct final as [|c f]; [apply good_follow_nil|]. rewrite <- (app_nil_r (c :: f)). apply good_follow_gap; [exact Hfin | discriminate].
-    + cbn [lay fst snd]. inversion HF' as [|? ? Hg' _]; subst. apply good_follow_gap; [exact Hg' | apply (Hne (g', x')); left; reflexivity].
+    + cbn [lay]. destruct final as [|c f]; [apply good_follow_nil|]. rewrite <- (app_nil_r (c :: f)). apply good_follow_gap; [exact Hx | exact Hfin | discriminate].
+    + cbn [lay fst snd]. inversion HF' as [|? ? [Hg' _] _]; subst. apply good_follow_gap; [exact Hx | exact Hg' | apply (Hne (g', x')); left; reflexivity].
   - apply IH; [exact HF' | exact Hfin |]. intros gx Hin. apply Hne. destruct t; [destruct Hin | right; exact Hin]. Qed.
 Lemma lexes_final_gap final : isgap final -> lexes final [].
 Proof. intros H. rewrite <- (app_nil_r final). apply lexes_isgap; [exact H|]. eapply lexes_end. reflexivity. Qed.
@@ -212,11 +219,11 @@ Lemma finalb_sound g : finalb false g = true -> lexes g [].
 Proof. apply (finalb_sound_n (length g) g (le_n _)). Qed.
 Definition head_failsb (p : ch -> bool) (b : text) : bool := match b with [] => true | c :: _ => negb (p c) end.
 Definition good_followb (x : kl) (rest : text) : bool :=
-  match fst x with KID => head_failsb is_idc rest | KINT => stops_int rest | KFLOAT => head_failsb fcont rest | _ => true end.
+  match fst x with KID => head_failsb is_idc rest | KINT => stops_int rest | KFLOAT => head_failsb fcont rest | KPLAIN => head_failsb is_plainc rest | _ => true end.
 Fixpoint lay_okb (l : list (text * kl)) (final : text) : bool :=
   match l with [] => true | gx :: t => good_followb (snd gx) (lay t final) && lay_okb t final end.
 Lemma head_failsb_sound p b : head_failsb p b = true -> head_fails p b.
 Proof. destruct b as [|c b]; [intros _; exact I|]. cbn. intros H. apply negb_true_iff in H. exact H. Qed.
 Lemma lay_okb_sound : forall l final, lay_okb l final = true -> lay_ok l final.
 Proof. induction l as [|[g x] t IH]; intros final H; [exact I|]. cbn [lay_okb lay_ok snd] in *. apply andb_true_iff in H as [H1 H2]. split; [|apply IH; exact H2].
-  unfold good_followb, good_follow in *. destruct (fst x); try exact I; [apply head_failsb_sound; exact H1 | apply head_failsb_sound; exact H1 | exact H1]. Qed.
+  unfold good_followb, good_follow in *. destruct (fst x); try exact I; [apply head_failsb_sound; exact H1 | apply head_failsb_sound; exact H1 | exact H1 | apply head_failsb_sound; exact H1]. Qed.
